@@ -57,6 +57,104 @@ func RunReset(conf core.Config) *core.Result {
 			if len(fd.Type.Params.List) == 1 && len(fd.Type.Params.List[0].Names) == 1 {
 				nParam = info.Defs[fd.Type.Params.List[0].Names[0]]
 			}
+			// methods of the receiver's type, for helpers that Reset calls
+			// (t.resize(n)): a helper defines a field when it does so on
+			// every path to its return
+			methods := map[string]*ast.FuncDecl{}
+			for _, f2 := range pkg.Syntax {
+				for _, d2 := range f2.Decls {
+					if m, ok := d2.(*ast.FuncDecl); ok && m.Body != nil && m.Recv != nil && len(m.Recv.List) == 1 && len(m.Recv.List[0].Names) == 1 {
+						if ro := info.Defs[m.Recv.List[0].Names[0]]; ro != nil && types.Identical(ro.Type(), recv.Type()) {
+							methods[m.Name.Name] = m
+						}
+					}
+				}
+			}
+			var helperDefines func(m *ast.FuncDecl, field string, depth int) bool
+			helperDefines = func(m *ast.FuncDecl, field string, depth int) bool {
+				if depth > 3 {
+					return false
+				}
+				mr := info.Defs[m.Recv.List[0].Names[0]]
+				isF := func(e ast.Expr) bool {
+					for {
+						switch x := e.(type) {
+						case *ast.SliceExpr:
+							e = x.X
+							continue
+						case *ast.ParenExpr:
+							e = x.X
+							continue
+						}
+						break
+					}
+					sel, ok := e.(*ast.SelectorExpr)
+					if !ok || sel.Sel.Name != field {
+						return false
+					}
+					id, ok := sel.X.(*ast.Ident)
+					return ok && core.ObjOf(info, id) == mr
+				}
+				def := func(n ast.Node) bool {
+					found := false
+					ast.Inspect(n, func(x ast.Node) bool {
+						switch s := x.(type) {
+						case *ast.AssignStmt:
+							for _, l := range s.Lhs {
+								if isF(l) {
+									found = true
+								}
+							}
+						case *ast.CallExpr:
+							if sel, ok := s.Fun.(*ast.SelectorExpr); ok {
+								if pid, ok := sel.X.(*ast.Ident); ok {
+									if pid.Name == "fftpack" && strings.HasSuffix(sel.Sel.Name, "i") {
+										for _, a := range s.Args {
+											if isF(a) {
+												found = true
+											}
+										}
+									}
+									if core.ObjOf(info, pid) == mr {
+										if h := methods[sel.Sel.Name]; h != nil && h != m && helperDefines(h, field, depth+1) {
+											found = true
+										}
+									}
+								}
+							}
+						}
+						return !found
+					})
+					return found
+				}
+				hg := cfgx.New(m.Body, info)
+				hasB := func(b *cfg.Block) bool {
+					for _, n := range b.Nodes {
+						if def(n) {
+							return true
+						}
+					}
+					return false
+				}
+				in := hg.MustPass(hasB)
+				hr := hg.Reachable()
+				for _, b := range hg.Blocks {
+					if !hr[b.Index] || len(b.Succs) != 0 || b.Kind == cfg.KindUnreachable {
+						continue
+					}
+					if len(b.Nodes) > 0 {
+						if es, ok := b.Nodes[len(b.Nodes)-1].(*ast.ExprStmt); ok {
+							if c, ok := es.X.(*ast.CallExpr); ok && cfgx.IsPanic(info, c) {
+								continue
+							}
+						}
+					}
+					if !(in[b.Index] || hasB(b)) {
+						return false
+					}
+				}
+				return true
+			}
 			g := cfgx.New(fd.Body, info)
 			reach := g.Reachable()
 			var fields []string
@@ -103,6 +201,11 @@ func RunReset(conf core.Config) *core.Result {
 										if isField(a) {
 											found = true
 										}
+									}
+								}
+								if pid, ok := sel.X.(*ast.Ident); ok && core.ObjOf(info, pid) == recv {
+									if h := methods[sel.Sel.Name]; h != nil && h != fd && helperDefines(h, field, 0) {
+										found = true
 									}
 								}
 							}
